@@ -297,6 +297,29 @@ theorem seed_change_partial_response_unsafe :
     ("a", "v2") ∈ w2.S.liveKeys w2.t ∧ ("a", "v2") ∉ w2.C.liveKeys w2.t ∧ w2.C.seed = w2.S.seed := by
   decide
 
+
+/-! ### totality -/
+
+/-- `Register` accepts exactly when the registration predicate holds and the same presentation is not listed already -/
+theorem register_accepts_iff (d : Def) (s : Store) (now fresh : Nat) (vp : VP) :
+    (register d s now fresh vp).2 = .ok () ↔
+      ∃ subj e id, Acceptable d .server s now vp subj e ∧ vp.id = some id ∧ s.hasKey subj id = false :=
+  register_ok_iff d s now fresh vp
+
+/-- `Register` never panics, whatever is submitted (every dereference sits behind the check that guards it) -/
+theorem register_never_panics (d : Def) (s : Store) (now fresh : Nat) (vp : VP) (p : String) :
+    (register d s now fresh vp).2 ≠ .panic p :=
+  register_ne_panic d s now fresh vp p
+
+/-- against the real server, in every reachable world, the replica's update ends without error or panic (the
+    `presentation.ID` dereferences in `updateService` / `storePresentation` are safe because the server lists only
+    presentations with an id, an expiry and a signer) -/
+theorem poll_never_fails (d : Def) (K : VP → Prop) (hK : IdFun K) (w : World) (hw : Reach factCfg d K w)
+    (perm : List VP → List VP) (hperm : ∀ l, (perm l).Perm l) (p : Pending) (hp : w.pending = some p) :
+    (step factCfg d w (.pollB perm)).2 = .ok () :=
+  pollB_ok factCfg factCfg_serviceFirst factCfg_restartOnWipe d w perm hperm
+    (winv_reach hK factCfg factCfg_serviceFirst factCfg_restartOnWipe d hw) p hp
+
 /-! ### non-vacuity of the replica theorems -/
 
 def exK : VP → Prop := fun vp => vp = exVP "a" "v1" 100 ∨ vp = exVP "b" "v2" 110 ∨ vp = exRetract "a" "v3" "v1" 100
